@@ -136,18 +136,18 @@ def gen_more(out):
     vals = [0]
     for m in (1, 9, 10, 99, 100, 999, 1000, 9999, 10**9 - 1, 10**9, 2**31 - 1, 2**31, 10**10 - 1, 10**10, 10**18, 2**63 - 1, 2**63):
         vals += [m, -m]
-    for cap in (0, 1, 3, 10, 20):
+    for cap in (0, 1, 3, 10, 19, 20):
         for v in vals:
             if -2**31 <= v < 2**31:
                 out.append(f"tostr {cap} int {v}")
             if -2**63 <= v < 2**63:
-                out.append(f"tostr {cap} long {v}")
+                out += [f"tostr {cap} long {v}", f"tostr {cap} llong {v}"]
             if 0 <= v < 2**32:
                 out.append(f"tostr {cap} uint {v}")
             if 0 <= v:
-                out.append(f"tostr {cap} ulong {v}")
+                out += [f"tostr {cap} ulong {v}", f"tostr {cap} ul {v}"]
         for v in (2**32 - 1, 10**19 - 1, 10**19, 2**64 - 1):
-            out.append(f"tostr {cap} ulong {v}")
+            out += [f"tostr {cap} ulong {v}", f"tostr {cap} ul {v}"]
         out.append(f"tostr {cap} uint {2**32 - 1}")
     for e in (0, 1):
         out += [f"opt {e} arrow", f"opt {e} carrow", f"opt {e} refarrow", f"exparrow {e} arrow", f"exparrow {e} carrow"]
@@ -260,6 +260,11 @@ def gen(tier, rng):
             out += [f"sspan {n} idx {a} 0", f"sspan {n} first {a} 0", f"sspan {n} last {a} 0"]
             for b in list(range(0, n + 3)) + [-1, -2, 2**64 - 1 - a if a >= 0 else 5, 2**63]:
                 out.append(f"sspan {n} subspan {a} {b}")
+    for ext in (0, 3, -1):
+        for count in list(range(0, 6)) + [8]:
+            out += [f"spanctor {ext} ptr {count}", f"spanctor {ext} rng {count}", f"spanctor {ext} dyn {count}", f"spanctor {ext} dynl {count}"]
+        for count in BIG:
+            out += [f"spanctor {ext} ptr {count}", f"spanctor {ext} dyn {count}"]
     for e in (0, 1):
         for o in ("deref", "cderef", "rderef", "crderef", "ref"):
             out.append(f"opt {e} {o}")
